@@ -382,4 +382,6 @@ def run(ctx, progs):
         r3_output_lifetimes_anchored(ctx, P)
         r4_handle_inputs_connected(ctx, P)
         r5_scope_marker_impls(ctx, P)
+        from . import c18
+        c18.r4_conversions(ctx, P, R="C04.R6")
     ctx.config = None
